@@ -977,6 +977,62 @@ pub fn run(cfg: &Cfg) -> Report {
     };
     inputs.push(("bif-stress".into(), e));
   }
+  // typed formal parameters and result types with every kind of argument (coercion: singleton lists, empty lists, nulls)
+  for _ in 0..(if thorough { 20000 } else { 500 }) {
+    let ty = *rng.pick(&["number", "string", "boolean", "date", "Any", "Null", "list<number>", "list<Any>", "list<list<number>>", "context<a: number>", "range<number>", "function<number> -> number", "days and time duration", "years and months duration", "date and time", "time"]);
+    let arg = match rng.below(14) {
+      0 => "[]".to_string(),
+      1 => "[[]]".to_string(),
+      2 => "[[[]]]".to_string(),
+      3 => "[null]".to_string(),
+      4 => "null".to_string(),
+      5 => "[1]".to_string(),
+      6 => "[1, 2]".to_string(),
+      7 => "{}".to_string(),
+      8 => "{a: []}".to_string(),
+      9 => "[{a: 1}]".to_string(),
+      10 => "[[1], []]".to_string(),
+      _ => gen_stress_arg(&mut rng),
+    };
+    let e = match rng.below(4) {
+      0 => format!("(function(a: {}) a)({})", ty, arg),
+      1 => format!("(function(a: {}, b: {}) [a, b])({}, {})", ty, ty, arg, gen_stress_arg(&mut rng)),
+      2 => format!("(function(a: {}) a)(a: {})", ty, arg),
+      _ => format!("{} instance of {}", arg, ty),
+    };
+    inputs.push(("bif-stress".into(), e));
+  }
+  // dates at the ends of the year range in every date function and operator
+  for _ in 0..(if thorough { 8000 } else { 300 }) {
+    let mut d = |rng: &mut Rng| -> String {
+      match rng.below(8) {
+        0 => "date(\"-999999999-01-01\")".to_string(),
+        1 => "date(\"999999999-12-31\")".to_string(),
+        2 => "date(\"0000-01-01\")".to_string(),
+        3 => "date(\"-0001-12-31\")".to_string(),
+        4 => format!("date({}, {}, {})", rng.range(-999_999_999, 1_000_000_000), 1 + rng.below(12), 1 + rng.below(28)),
+        5 => "date and time(\"999999999-12-31T23:59:59Z\")".to_string(),
+        6 => "date and time(\"-999999999-01-01T00:00:00+14:00\")".to_string(),
+        _ => format!("date(\"{}-02-28\")", 1900 + rng.below(300)),
+      }
+    };
+    let (a, b) = (d(&mut rng), d(&mut rng));
+    let e = match rng.below(12) {
+      0 => format!("years and months duration({}, {})", a, b),
+      1 => format!("{} - {}", a, b),
+      2 => format!("{} < {}", a, b),
+      3 => format!("{} = {}", a, b),
+      4 => format!("day of week({})", a),
+      5 => format!("day of year({})", a),
+      6 => format!("week of year({})", a),
+      7 => format!("month of year({})", a),
+      8 => format!("{} + duration(\"P{}M\")", a, rng.range(-30_000_000_000, 30_000_000_000)),
+      9 => format!("{} + duration(\"P{}D\")", a, rng.range(-400_000_000_000, 400_000_000_000)),
+      10 => format!("string({})", a),
+      _ => format!("({}).weekday", a),
+    };
+    inputs.push(("bif-stress".into(), e));
+  }
   // strings with control characters (NUL included) handed to the conversions
   for _ in 0..(if thorough { 4000 } else { 120 }) {
     let t = *rng.pick(&["\\u0000", "1\\u00002", "\\u0000 1", "12\\u0000", "\\u0001", "\\u007F", "\\n1", "1\\t", "\\uFEFF1", "1e\\u00005"]);
